@@ -16,7 +16,7 @@ def _job(args):
         return A.run_history(hid, h)
     except Exception as e:
         import traceback
-        return {"id": hid, "crash": "%s: %s\n%s" % (type(e).__name__, e, traceback.format_exc()[-1500:])}
+        return {"id": hid, "crash": "%s: %s\n%s" % (type(e).__name__, e, traceback.format_exc()[-3000:])}
 
 
 def _class(t, k):
@@ -78,7 +78,7 @@ def run(rep: E.Report, work: str, selftest: bool = False, replay: dict | None = 
     traces = E.pmap(_job, jobs, procs=16)
     crashed = [t for t in traces if "crash" in t]
     if crashed:
-        raise E.MachineryError("alloc driver crashed on %d histories, first %s\n%s" % (len(crashed), crashed[0]["id"], crashed[0]["crash"]))
+        raise E.DriverCrash("alloc driver crashed on %d histories, first %s" % (len(crashed), crashed[0]["id"]), crashed[0]["crash"])
     # binding sanity: the object really holds the initial identifier set the history starts from
     byid = dict(zip((j[0] for j in jobs), jobs))
     for t in traces:
